@@ -55,7 +55,7 @@ fn vrp_line(ca: u64, v: u64, f: u64) -> String {
 }
 
 /// TA with two child CAs in another module; version `v` of both CAs.
-fn world(v: u64, ca3_mft_missing: bool) -> World {
+pub(crate) fn world(v: u64, ca3_mft_missing: bool) -> World {
     let mut ta = Ca::new("ca1", None, 0, &format!("{TA_REPO}ca1/"));
     ta.prefixes = vec!["0.0.0.0/0".into()];
     ta.asns = vec![(64000, 65000)];
@@ -167,7 +167,7 @@ fn classify_plain(path: &Path) -> String {
     }
 }
 
-fn find_files(root: &Path, suffix: &str, out: &mut Vec<PathBuf>) {
+pub(crate) fn find_files(root: &Path, suffix: &str, out: &mut Vec<PathBuf>) {
     if let Ok(rd) = std::fs::read_dir(root) {
         for e in rd.flatten() {
             let p = e.path();
